@@ -1074,6 +1074,9 @@ fn corpus(out: &mut Out) {
         ("MATCH (a:A)-[:R*1..2]->(b) WHERE a.v = 0 RETURN a.u, b.u", false, true),
         ("MATCH (a:A)-[r:R*1..2]->(b) MATCH (c:C) WHERE a.v < 2 AND b.v > 0 RETURN a.u, b.u, c.u", false, true),
         ("MATCH (a:A)-[*2..3]->(b) WHERE a.u = 100 RETURN a.u, b.u", false, true),
+        ("MATCH p = (a:A)-[:R*1..2]->(b) WHERE a.v = 0 RETURN a.u, b.u", false, true),
+        ("MATCH (a:A)-[r:R*1..2]->(b) WHERE r.ew > 1 RETURN a.u, b.u", false, true),
+        ("MATCH (a:A)<-[*1..2]-(b) MATCH (c:C) WHERE b.v >= 0 AND c.v > 1 RETURN a.u, b.u, c.u", false, true),
         ("MATCH (c:C) MATCH (a:A)-[:R*1..2]->(b)-[:S]->(d) WHERE a.v = 0 RETURN a.u, b.u, c.u, d.u", false, true),
         // C09-K5: a hop of a two-hop chain without any match (no C node has an outgoing R edge; b2 has
         // no outgoing S edge) next to a join
